@@ -8,6 +8,7 @@ import TantivyModel.Proofs.AggRange
 import TantivyModel.Proofs.AggCompTrim
 import TantivyModel.Proofs.AggKeyOrder
 import TantivyModel.Proofs.AggKeyDesc
+import TantivyModel.Proofs.AggEvict
 /-!
 # C14 — Aggregations equal a direct computation and do not depend on partitioning
 
@@ -501,6 +502,30 @@ theorem C14_composite_any_trim_schedule {sub : Req} (dec : KMap (Nat × Inter M 
   rw [h, h2]
   exact finalize_collect_pv _ _
 
+/-- **Composite eviction ANYWHERE in the request tree is invisible.**  `evict` applies the
+per-segment eviction at every composite node of the intermediate tree — below terms, histogram,
+range, filter nodes, in every parent bucket, composites below composites.  For every request tree
+and every partition into any number of segments the final result of the merged evicted fruits is
+the direct per-value computation.  (Proof: observational equality `∀ z, finalize (merge x z) =
+finalize (merge y z)` is a right congruence by associativity; induction over the request tree.) -/
+theorem C14_composite_eviction_invisible_anywhere (r : Req) (parts : List (List Doc)) :
+    finalize r ((parts.map (collectSegEvict (M := M) r)).foldl (merge r) (empty r))
+      = evalAggPV M r parts.flatten := by
+  rw [evict_invisible, finalize_collect_pv]
+
+/-- … for every merge schedule of the evicted fruits -/
+theorem C14_composite_eviction_invisible_any_schedule (r : Req) (parts : List (List Doc)) (t : MTree (Inter M r))
+    (hleaves : t.leaves.Perm (parts.map (collectSegEvict (M := M) r))) :
+    finalize r (t.eval (merge r) (empty r)) = evalAggPV M r parts.flatten := by
+  rw [MTree.eval_eq_fold (merge r) (empty r) (merge_assoc r) (merge_comm r) (empty_merge r),
+    foldl_op_perm (merge r) (empty r) (merge_assoc r) (merge_comm r) (empty_merge r) hleaves]
+  exact C14_composite_eviction_invisible_anywhere r parts
+
+/-- the observational core: an evicted fruit behaves like the original one in every merge -/
+theorem C14_evict_observationally_equal (r : Req) (x z : Inter M r) (hx : WS r x) (hz : WS r z) :
+    finalize r (merge r (evict r x) z) = finalize r (merge r x z) :=
+  evict_obs r x z hx hz
+
 /-- the algebraic core: trimming the operands first does not change the trimmed merge -/
 theorem C14_composite_trim_merge {V : Type} (f : (Nat × V) → (Nat × V) → (Nat × V)) (size : Nat)
     (after : Option Int) (a b : KMap (Nat × V)) (ha : Supp a) (hb : Supp b) :
@@ -692,6 +717,12 @@ example : finalize (M := Int) (.terms ⟨0, Option.none, 1, 1, 1, .keyDesc⟩ .n
     ((MTree.node (.leaf (collectSeg (M := Int) (.terms ⟨0, Option.none, 1, 1, 1, .keyDesc⟩ .none) [[(0, [2])], [(0, [1])]]))
         (.leaf (collectSeg (M := Int) (.terms ⟨0, Option.none, 1, 1, 1, .keyDesc⟩ .none) [[(0, [3])], [(0, [1])]]))).eval
       (merge (.terms ⟨0, Option.none, 1, 1, 1, .keyDesc⟩ .none)) (empty _)) = ([(3, 1, ())], 3, 2) := by decide +kernel
+set_option synthInstance.maxSize 1024 in
+/-- composite (page size 1) below a terms bucket, two segments: each evicts to its smallest source value (1 resp. 0) -/
+example : @Eq (List (Int × Nat × List (Int × Nat × Unit)) × Nat × Nat) (finalize (M := Int) (.terms ⟨1, Option.none, 10, 10, 1, .keyAsc⟩ (.composite [⟨0, 9, false⟩] 1 Option.none .none))
+    (([[[(1, [7]), (0, [3])], [(1, [7]), (0, [1])]], [[(1, [7]), (0, [2])], [(1, [7]), (0, [0])]]].map
+        (collectSegEvict (M := Int) (.terms ⟨1, Option.none, 10, 10, 1, .keyAsc⟩ (.composite [⟨0, 9, false⟩] 1 Option.none .none)))).foldl
+      (merge _) (empty _))) ([(7, 4, [(0, 1, ())])], 0, 0) := by decide +kernel
 example : (compTrim 1 Option.none (compTrim 2 Option.none (KMap.merge (fun a _ => a) (KMap.single 3 (1, ()))
     (KMap.merge (fun a _ => a) (KMap.single 1 (1, ())) (KMap.single 2 (1, ())))))).entries = [(1, 1, ())] := by decide +kernel
 example : [0, 10, 20].Pairwise (fun a b : Int => a < b) := by decide
